@@ -2,7 +2,8 @@
 
 E2 environment explorer.  For every kernel (MH, CWMH, pCN, MALA) x interface (cuqi.sampler,
 cuqi.experimental.mcmc) x target x scale x history (fresh / after warm-up under every enumerated
-accept/reject pattern / after state reload into a fresh sampler) x current state x noise answer, ONE
+accept/reject pattern / after state reload into a fresh sampler / after the scale was re-assigned on the live, already
+stepped sampler by attribute or state dictionary) x current state x noise answer, ONE
 transition of the real sampler is executed under a scripted stream with a *symbolic* uniform draw and its
 complete decision tree is enumerated; the leaves (exact branch probability, new state, cached
 log-density/gradient) are compared with the leaves of a reference Metropolis-Hastings kernel built for
@@ -19,10 +20,14 @@ PROPERTY = "C02"
 RULE = ("cells = interface x kernel x target x scale; inside a cell ALL (history, state, noise answer) triples of "
         "the stated alphabets are executed on the real sampler with a symbolic uniform and the complete "
         "decision tree of the transition is enumerated; a cell is non-trivial when at least one transition "
-        "had an acceptance probability strictly between 0 and 1")
+        "had an acceptance probability strictly between 0 and 1; in the scale re-assignment histories the "
+        "identified proposal map is additionally compared with that of a sampler constructed with the assigned scale")
 BOUND = {"quick": "(+ block-in-HybridGibbs history for MH/PCN: all accept/reject patterns of 3 sweeps, 2 scales x 2 starts; + tuple target form of the "
                   "legacy pCN; + integer-dtype initial points; + zero-density current states; + user proposal with undeclared symmetry; + magnitude facet: concentrated anisotropic target N(0, diag(h, h/6)), h=2^-13, scales 0.6 and h, two tail + two near-mode states, so that log target and log proposal ratios each exceed the range of exp()) dims 1-2; 3 scales; 4 states per target; noise lattice {-1.5,-.5,.5,1.5}^d (d=1), 8 answers (d=2); "
-                  "histories: fresh, warm-up Nb=2 under all accept/reject patterns (<=1 deviation for CWMH), reload",
+                  "histories: fresh, warm-up Nb=2 under all accept/reject patterns (<=1 deviation for CWMH), reload; "
+                  "for scale 0.6 also: sibling sampler first, and scale re-assignment on one live sampler (built with scale 0.15, two direct "
+                  "transitions accept/reject, then scale := 0.6 by attribute [both interfaces] or get_state/set_state [experimental], "
+                  "then direct step() without sample()/warmup()/re-initialisation)",
          "thorough": "dims 1-3; 3 scales + vector scale; 5 states; full lattice d<=2, 14 answers d=3; warm-up Nb<=3"}
 ASSUMPTIONS = [
     "pi is the target's own log-density; q is the Gaussian law of the affine proposal map identified from the "
@@ -30,6 +35,9 @@ ASSUMPTIONS = [
     "invariance for every target is inferred from the exact acceptance formula + detailed balance on the explored "
     "edges and the textbook theorem; values outside the catalogues are not covered",
     "relocating a warmed-up experimental sampler uses its public state dictionary (get_state/set_state)",
+    "scale re-assignment histories: one old scale (a quarter of the new one), one new scale (0.6), two prior transitions; "
+    "assigning the public attribute `scale` / the 'scale' entry of the state dictionary is taken to be a supported way of "
+    "changing the step size of a live sampler (the warm-up tuners do exactly this); ULA is outside C02's kernel list",
 ]
 
 IFACES = ("exp", "legacy")
@@ -283,6 +291,34 @@ class Adapter:
             pass          # the sibling itself is not under test here
         return self.construct(x)
 
+    def construct_rescaled(self, x, how):
+        """ONE live sampler: constructed with ANOTHER scale (a quarter of the cell's), advanced by two direct transitions
+        (accept, then reject) under catalogue noise, and only then given the cell's scale - by attribute assignment
+        (how='rescale-attr') or through its public state dictionary (how='rescale-state').  No sample()/warmup() call and no
+        re-initialisation happens between the assignment and the transitions that are judged afterwards."""
+        new = copy.deepcopy(self.scale)
+        self.scale = new * 0.25
+        try:
+            s = self.construct(x)
+        finally:
+            self.scale = new
+        noise = lambda n, i: refs.dyadic_vec(n, i + self.cell["cat"], scale=0.25)
+        st = Stream(normal=noise, decisions=Decisions([True, False]))
+        with st.installed():
+            if self.iface == "exp":
+                s.step()
+                s.step()
+            else:
+                s.sample(3)
+        if how == "rescale-attr":
+            s.scale = copy.deepcopy(new)
+        else:
+            state = copy.deepcopy(s.get_state())
+            old = state["state"]["scale"]
+            state["state"]["scale"] = (np.ones_like(np.asarray(old, dtype=float)) * new) if np.ndim(old) else float(new)
+            s.set_state(state)
+        return s
+
     def construct(self, x):
         x = np.array(x, dtype=float)
         if self.cell.get("x0rep") == "int" and np.all(x == np.round(x)):
@@ -431,6 +467,12 @@ def histories(cell):
             hs.append(("warm", (Nb, p)))
     if iface == "exp":
         hs.append(("reload", (Nbs[-1], [True, False, True][:Nbs[-1]])))
+    if cell["scale"] == "s0.6" and not cell.get("form"):
+        # tuning-parameter re-assignment on ONE live sampler: built with another scale, advanced by two direct transitions,
+        # then the cell's scale is assigned (attribute / state dictionary) and the sampler is stepped again directly
+        hs.append(("rescale-attr", None))
+        if iface == "exp":
+            hs.append(("rescale-state", None))
     return hs
 
 
@@ -471,9 +513,12 @@ def eval_cell(cell):
             elif hkind == "sibling":
                 pos = lambda x: ad.construct_after_sibling(x)
             else:
-                Nb, pattern = hpar
-                base = ad.construct(X[0])
-                ad.warm(base, pattern, Nb)
+                if hkind.startswith("rescale"):
+                    base = ad.construct_rescaled(X[0], hkind)
+                else:
+                    Nb, pattern = hpar
+                    base = ad.construct(X[0])
+                    ad.warm(base, pattern, Nb)
                 if cell["iface"] == "exp":
                     saved = copy.deepcopy(base.get_state())
 
@@ -502,6 +547,14 @@ def eval_cell(cell):
                 if ident_x is None:
                     fail("proposal-not-affine", hname, "proposal is not an affine function of the noise at x=%s" % x, focus={"x": x})
                     continue
+                if hkind.startswith("rescale"):
+                    # differential oracle: the proposal map in effect after the assignment is that of a sampler that was
+                    # constructed with this scale in the first place (the scale is the only tuning parameter of these kernels)
+                    ident_f = identify(ad, lambda y: ad.construct(y), x, res)
+                    if ident_f is None or not (close(ident_x[0], ident_f[0], 1e-9, atol=1e-12) and close(ident_x[1], ident_f[1], 1e-9, atol=1e-12)):
+                        fail("proposal-after-reassign", hname, "after the scale was re-assigned on the live sampler its proposal map "
+                             "m(x)+T xi (T=%s) is not the one of a sampler constructed with that scale (T=%s)"
+                             % (ident_x[1].tolist(), None if ident_f is None else ident_f[1].tolist()), focus={"x": x})
                 for xi in XI:
                     out = one_transition(ad, tgt, pos, x, xi, ident_x, res, hname, fail, cell)
                     nontriv = nontriv or out
